@@ -315,6 +315,25 @@ inline Cand choose()
     }
     if (R.step >= R.cfg.budget) report_blocked_and_exit("budget", 3);
     Pol pol = R.cfg.pol;
+    if (pol == Pol::Replay && !R.soloDone) {
+        // replay of an execution recorded under the solo policy: re-evaluate the starvation report at the same point
+        auto st = R.cfg.params.find("starveT");
+        auto sk = R.cfg.params.find("starveK");
+        if (st != R.cfg.params.end() && sk != R.cfg.params.end() && (long)R.replayPos == sk->second) {
+            R.soloDone = true;
+            bool can = false;
+            for (auto& x : c)
+                if (x.t->id == (int)st->second && !x.weak) can = true;
+            Thr* tt = st->second < (long)R.thr.size() ? R.thr[(size_t)st->second].get() : nullptr;
+            if (!can && tt && tt->state != 2) {
+                Ev e;
+                e.t = (int)st->second;
+                e.k = "starved";
+                e.o = tt->pend ? tt->pend->kind : "";
+                emit(e);
+            }
+        }
+    }
     if (pol == Pol::Replay) {
         if (R.replayPos < R.cfg.replay.size()) {
             SchedEntry se = R.cfg.replay[R.replayPos++];
